@@ -29,7 +29,10 @@ def run(tier):
     fn = ix.functions['derive_session_event']
     rep.rule('R11.a', 'Discover upper header layout: station list starts at frame offset 36 with a 6-byte stride', floor=2)
     rep.rule('R11.b', 'scan: index from 0 step 1 up to the count field; entry k is the six bytes at 36+6k, compared with the own address; early exit only on a match', floor=3)
+    rep.rule('R11.d', 'the session lookup the classifier relies on scans every slot and matches exactly (valid, mapper address, generation) - for all table contents', floor=3)
     rep.rule('R11.c', 'result table: Reset -> topology-wide iff real destination is broadcast; Hello -> hello; Discover -> acking/not, changed-seq iff a known session has another sequence number; everything else -> no event', floor=8)
+    from .c16 import Ctx, check_find
+    check_find(rep, Ctx(prog), 'R11.d')
     # (a) layout
     t = ix.parse_type('lltd_discover_upper_header_t')
     f = t.rec.field('stationList')
